@@ -3,6 +3,7 @@ import logging
 import weakref
 import trio
 import functools
+import inspect
 import threading
 
 from types import ModuleType
@@ -100,6 +101,10 @@ def service(flavour):
             self.__service_unit__ = service_unit
             return self
 
+        if __new__ is object.__new__:
+            # keep the class introspectable: ``inspect.signature(cls)`` looks at a
+            # user-defined ``__new__`` first and would see ``(*args, **kwargs)``
+            __new_service__.__signature__ = inspect.signature(raw_cls.__init__)
         raw_cls.__new__ = __new_service__
         if raw_cls.run.__doc__ is None:
             raw_cls.run.__doc__ = "Service entry point"
